@@ -30,6 +30,7 @@ pub fn dispatch(
         "memchr-alloc" => memchr_alloc(args, thorough, total, bounds),
         "pf" => pf(args, thorough, seed, total, bounds),
         "sf" => sf(args, thorough, seed, total, bounds),
+        "nl" => nl(args, thorough, seed, total, bounds),
         _ => return false,
     }
     true
@@ -816,4 +817,75 @@ fn sf(args: &Args, thorough: bool, seed: u64, total: &mut Report, bounds: &mut M
     });
     total.merge(rep);
     bounds.insert("SF".into(), json!({"needle_letters": String::from_utf8_lossy(&letters), "needle_len": [2, nmax], "pieces": "needle, every single-byte change (to each other letter and a foreign byte), every proper prefix and suffix", "shape": if three { "pad + P + gap + Q + gap + P + pad" } else { "pad + P + gap + Q + pad" }, "gaps": "all strings of <= 2 letters (incl. foreign) and 5 foreign bytes", "pads": "(0,16) (16,0) (1,17) (7,9) (0,0)"}));
+}
+
+/// NL: every needle of medium length over a tiny alphabet (long enough for
+/// every critical-factorisation shape of the suffix computation to occur)
+/// against a small set of haystacks derived from the needle itself: the
+/// needle behind every short run of each letter, behind each of its own
+/// proper suffixes, in front of each of its own proper prefixes, doubled, and
+/// the same with the needle's last / first byte changed (no occurrence).
+fn nl(args: &Args, thorough: bool, seed: u64, total: &mut Report, bounds: &mut Map<String, Value>) {
+    let kinds = crate::parse_kinds_pub(&args.str("subjects", "twoway,rtwoway,finder-nopre,rfinder"));
+    let letters = args.str("letters", "ab").into_bytes();
+    let k = letters.len();
+    let nmin = args.num("nmin", if k == 2 { 8 } else { 6 }) as usize;
+    let nmax = args.num("nmax", if k == 2 { if thorough { 16 } else { 13 } } else if thorough { 10 } else { 8 }) as usize;
+    let needles = AllStrings { letters: letters.clone(), minlen: nmin, maxlen: nmax };
+    let nt = needles.total();
+    let rep = par::run_chunks(nt, 256, |lo, hi, r| {
+        let mut ctx = Ctx::new();
+        let mut h: Vec<u8> = Vec::with_capacity(128);
+        needles.for_range(lo, hi, |_, needle| {
+            ctx.set_needle(needle);
+            let subjects = build_all(r, &kinds, needle, None, seed);
+            let m = needle.len();
+            let mut idx = 0u64;
+            let mut go = |h: &[u8], r: &mut Report, ctx: &mut Ctx| {
+                idx += 1;
+                check_hay(ctx, r, &subjects, needle, h, Place::Plain, (idx % 8) as usize, None, idx);
+            };
+            for variant in 0..3 {
+                // 0: the needle; 1: last byte changed; 2: first byte changed
+                let mut core = needle.to_vec();
+                if variant == 1 {
+                    core[m - 1] = b'#';
+                } else if variant == 2 {
+                    core[0] = b'#';
+                }
+                for &c in letters.iter().chain(std::iter::once(&b'#')) {
+                    for pl in 0..=4usize {
+                        for pr in [0usize, 1, 16] {
+                            h.clear();
+                            h.extend(std::iter::repeat(c).take(pl));
+                            h.extend_from_slice(&core);
+                            h.extend(std::iter::repeat(c).take(pr));
+                            go(&h, r, &mut ctx);
+                        }
+                    }
+                }
+                for j in 1..m {
+                    // a proper suffix of the needle, then the (changed) needle
+                    h.clear();
+                    h.extend_from_slice(&needle[j..]);
+                    h.extend_from_slice(&core);
+                    h.extend_from_slice(b"################");
+                    go(&h, r, &mut ctx);
+                    // the (changed) needle, then a proper prefix
+                    h.clear();
+                    h.extend_from_slice(b"################");
+                    h.extend_from_slice(&core);
+                    h.extend_from_slice(&needle[..j]);
+                    go(&h, r, &mut ctx);
+                }
+                h.clear();
+                h.extend_from_slice(&core);
+                h.extend_from_slice(needle);
+                h.extend_from_slice(&core);
+                go(&h, r, &mut ctx);
+            }
+        });
+    });
+    total.merge(rep);
+    bounds.insert("NL".into(), json!({"needle_letters": String::from_utf8_lossy(&letters), "needle_len": [nmin, nmax], "needles": nt, "haystacks_per_needle": "3 variants x ((|letters|+1) x 5 x 3 pads + 2(m-1) suffix/prefix contexts + 1 tripled)"}));
 }
